@@ -56,7 +56,12 @@ class Check(HCheck):
             al.page(Awx),  # three hosts: the domain and subdomain defaults differ on it
         ]
         seq = [al.page(Ax, True), al.page(Awx), al.links((Ax, Ab), (Ab, Ax), (Ax, Ab)), al.create(Ax), al.delete(0), al.REOPEN, al.clear("subdomain", {Ax: "path2"}), al.clear("domain", {})]
+        # letter case: the family's 'localhost' alternative only matches h:LOCALHOST because rules
+        # are compiled case-insensitively - on every path, also when re-supplied at reopen
+        LH = b"s:http|h:LOCALHOST|"
+        case = [al.rule(LH, "path1"), al.page(LH + b"p:x|"), al.page(LH + b"p:y|p:z|", True), al.REOPEN, al.unrule(LH), al.clear("never", {LH: "path2"})]
         return [
+            Space(Cfg("never"), case, 5 if thorough else 4, name="life/letter-case", dedup=False),
             # every sequence over a small alphabet, no merging of byte-equal states
             Space(Cfg("domain"), seq, 5 if thorough else 4, name="life/all-sequences", dedup=False),
             Space(Cfg("domain"), ops, 5 if thorough else 4, name="life/domain"),
